@@ -7,6 +7,8 @@ baseline (contiguous NumPy / pandas) and under any drawn chunk layout.
 
 from __future__ import annotations
 
+import os
+
 import numpy as np
 
 from .choices import Choices
@@ -495,6 +497,31 @@ def apply_strategy(st):
     )
 
 
-def gen_fault(s: Choices):
-    kind = s.weighted([(3, "task_fail_before"), (3, "task_fail_after"), (2, "spawn_fail"), (2, "consumer_interrupt")])
-    return {"kind": kind, "k": s.small(9)}
+STMT_KINDS = ("stmt_fail", "stmt_interrupt")
+
+
+def gen_fault(s: Choices, stmt: bool = False):
+    """A fault plan.  Pool-level kinds carry `k` (which task / submit / wait); statement-level
+    kinds (only where the caller asks for them) carry `pos` (per-mille position among the
+    library's Python line events of the call, scaled at execution time by a traced dry run)
+    and `mode` (0: any library line, 1: lines of functions that store attributes / elements,
+    2: the lines reached right after an attribute of `self` was re-bound)."""
+    pairs = [(3, "task_fail_before"), (3, "task_fail_after"), (2, "spawn_fail"), (2, "consumer_interrupt")]
+    if stmt:
+        pairs += [(4, "stmt_fail"), (6, "stmt_interrupt")]
+    only = os.environ.get("GBSIM_FAULT_KINDS")  # development aid (focused exploration); never set by registered commands
+    if only:
+        pairs = [p_ for p_ in pairs if p_[1] in only.split(",")] or pairs
+    kind = s.weighted(pairs)
+    f = {"kind": kind, "k": s.small(9)}
+    if kind in STMT_KINDS:
+        f["pos"] = s.draw(1000)
+        f["mode"] = s.weighted([(1, 0), (1, 1), (2, 2)])
+    return f
+
+
+def arm_stmt_fault(fault, n_lines):
+    """The fault plan with its absolute line position (`at`), given the dry run's line count."""
+    if not fault or fault.get("kind") not in STMT_KINDS:
+        return fault
+    return dict(fault, at=(fault["pos"] * max(1, int(n_lines))) // 1000)
